@@ -48,6 +48,22 @@ def _is_content_cmp(node) -> bool:
             and isinstance(node.left, ast.Name) and isinstance(node.comparators[0], ast.Name))
 
 
+def _failed_content_cmp(fn, node, pol) -> bool:
+    """the condition `node` evaluating to `pol` means that a whole-contents comparison failed - through `not` and through a
+    local that holds the comparison's result (`unchanged = self._contents_eq(...); if not unchanged:`)"""
+    from .common import expand_locals
+    while isinstance(node, ast.UnaryOp) and isinstance(node.op, ast.Not):
+        node, pol = node.operand, (not pol if pol is not None else None)
+    if isinstance(node, ast.Name):
+        try:
+            node = ast.parse(expand_locals(fn, node), mode="eval").body
+        except SyntaxError:
+            return False
+        while isinstance(node, ast.UnaryOp) and isinstance(node.op, ast.Not):
+            node, pol = node.operand, (not pol if pol is not None else None)
+    return _is_content_cmp(node) and pol is False
+
+
 GUARDED = [(f"{CORE}:Kconfig.write_config", "filename"), (f"{CORE}:Kconfig._write_if_changed", "filename"),
            ("kconfgen.core:update_if_changed", "destination")]
 
@@ -78,7 +94,7 @@ def r13_1(ctx):
                 continue
             n_open += 1
             ln = [e[1] for e in p.events if e[0] == "OPEN"][0]
-            compared = any(_is_content_cmp(node) and pol is False and l2 <= ln for c, pol, l2, node in p.conds)
+            compared = any(_failed_content_cmp(f.node, node, pol) and l2 <= ln for c, pol, l2, node in p.conds)
             absent = any(c in (f"os.path.exists({param})", f"exists({param})") and pol is False for c, pol, _, _ in p.conds)
             if not (compared or absent):
                 bad += 1
@@ -111,15 +127,23 @@ def r13_1b(ctx):
     construct = "Kconfig._contents_eq/reads beyond len(contents) and compares for equality"
     ok = False
     if reads:
+        from .common import expand_locals
         r = reads[0]
         if not r.args:
             ok = True
         else:
-            a = r.args[0]
-            ok = (isinstance(a, ast.BinOp) and isinstance(a.op, ast.Add) and ast.unparse(a.left) == f"len({cparam})"
-                  and isinstance(a.right, ast.Constant) and isinstance(a.right.value, int) and a.right.value >= 1)
-        par = repo.parent(r)
-        ok = ok and isinstance(par, ast.Compare) and isinstance(par.ops[0], ast.Eq) and ast.unparse(par.comparators[0]) == cparam
+            a = expand_locals(f.node, r.args[0]).replace(" ", "")
+            import re as _re
+            m = _re.fullmatch(rf"len\({cparam}\)\+(\d+)|(\d+)\+len\({cparam}\)", a)
+            ok = bool(m) and int(m.group(1) or m.group(2)) >= 1
+        # the value read is compared for equality with the new contents (directly or through a local), and that is what
+        # the function returns
+        rtxt = ast.unparse(r).replace('"', "'")
+        cmps = [n for n in ast.walk(f.node) if isinstance(n, ast.Compare) and len(n.ops) == 1 and isinstance(n.ops[0], ast.Eq)
+                and {expand_locals(f.node, n.left), expand_locals(f.node, n.comparators[0])} == {expand_locals(f.node, r), cparam}]
+        rets = [n for n in ast.walk(f.node) if isinstance(n, ast.Return) and n.value is not None and ast.unparse(n.value) != "False"]
+        ok = ok and bool(cmps) and bool(rets) and all(
+            expand_locals(f.node, x.value) in {expand_locals(f.node, c) for c in cmps} for x in rets)
     if ok:
         ctx.ok(construct, f.loc(reads[0]))
     else:
